@@ -239,7 +239,11 @@ func knownClass(c Case, f *evid.Failure) string {
 func genCase(t *rapid.T, o *tgen.Opts) Case {
 	var c Case
 	c.T = tgen.GenType(t, o)
-	n := rapid.IntRange(2, 5).Draw(t, "nvals")
+	maxVals := 5
+	if evid.Thorough() {
+		maxVals = 10 // more values per type: codec construction and the library's copy-on-write codec cache dominate otherwise
+	}
+	n := rapid.IntRange(2, maxVals).Draw(t, "nvals")
 	for i := 0; i < n; i++ {
 		c.Vals = append(c.Vals, tgen.GenRecipe(t, &c.T, o))
 		c.Protos = append(c.Protos, rapid.IntRange(0, 2).Draw(t, "proto"))
@@ -299,7 +303,7 @@ func account(c Case) {
 
 func TestRoundTrip(t *testing.T) {
 	o := &tgen.Opts{NoWideIDs: evid.KnownActive(classWideIDs)}
-	n := 12000
+	n := 20000
 	if evid.Thorough() {
 		o.MaxDepth = 4
 	}
